@@ -136,12 +136,15 @@ def w_single(pid, tier, seed, job):
         ctx.agree("make_safe_name", {"name": n}, iv, U(mv))
         ctx.require("safe name has no path separator and no surrounding blank", {"name": n},
                     "/" not in iv and "\\" not in iv and iv == iv.strip(), iv)
-    mod = M.call_batch("add_count", [[S(n), i] for n in names for i in (2, 3, 10)])
-    k = 0
-    for n in names:
-        for i in (2, 3, 10):
-            ctx.agree("add_count", {"name": n, "i": i}, img._add_count_to_name(n, i), U(mod[k]))
-            k += 1
+    if hasattr(img, "_add_count_to_name"):
+        mod = M.call_batch("add_count", [[S(n), i] for n in names for i in (2, 3, 10)])
+        k = 0
+        for n in names:
+            for i in (2, 3, 10):
+                ctx.agree("add_count", {"name": n, "i": i}, img._add_count_to_name(n, i), U(mod[k]))
+                k += 1
+    else:
+        ctx.note("C06: relation add_count skipped, internal name Image._add_count_to_name not available (covered through make_export_names)")
     return ctx.dump()
 
 
